@@ -294,6 +294,89 @@ func c14RunAfterFailed(bad string, cuts []int) explore.Result {
 	return res
 }
 
+// c14RunRetainedRows: the handler keeps the rows it was handed (the values themselves, not copies) beyond the end
+// of its COPY; then further COPYs run (on the same and on another connection) with other bytes. What the first
+// handler holds still reads as the rows its client encoded. Columns of the types whose decoded values refer to
+// the bytes of the stream (bit / varbit / bytea) are the interesting ones.
+func c14RunRetainedRows(later int, otherConn bool) explore.Result {
+	var res explore.Result
+	res.Outcome = "split"
+	res.Key = fmt.Sprint("retained-rows", later, otherConn)
+	type kept struct {
+		row   []any
+		shown string
+	}
+	var keep []kept
+	first := true
+	parse := func(ctx context.Context, q string) (wire.PreparedStatements, error) {
+		return wire.Prepared(wire.NewStatement(func(ctx context.Context, w wire.DataWriter, p []wire.Parameter) error {
+			cr, err := w.CopyIn(wire.BinaryFormat)
+			if err != nil {
+				return err
+			}
+			rd, err := wire.NewBinaryColumnReader(ctx, cr)
+			if err != nil {
+				return err
+			}
+			for {
+				row, err := rd.Read(ctx)
+				if err == io.EOF {
+					break
+				}
+				if err != nil {
+					return err
+				}
+				if first {
+					keep = append(keep, kept{row, fmt.Sprintf("%v", row)})
+				}
+			}
+			first = false
+			return w.Complete("COPY")
+		}, wire.WithColumns(wire.Columns{{Name: "mask", Oid: 1562}, {Name: "b", Oid: 17}, {Name: "t", Oid: 25}, {Name: "fixed", Oid: 1560}}))), nil
+	}
+	srv, err := harness.NewServer(parse)
+	if err != nil {
+		res.Engine = err.Error()
+		return res
+	}
+	defer srv.Stop()
+	bits := func(n int, fill byte) []byte {
+		return append(pgproto.Be32(uint32(n)), bytes.Repeat([]byte{fill}, (n+7)/8)...)
+	}
+	stream := func(fill byte, rows int) []byte {
+		s := pgproto.BinaryCopyHeader()
+		for i := 0; i < rows; i++ {
+			s = append(s, pgproto.BinaryCopyTuple([][]byte{bits(16+8*i, fill), bytes.Repeat([]byte{fill}, 5+i), []byte(strings.Repeat(string(rune('a'+i)), 6)), bits(8, fill)})...)
+		}
+		return append(s, pgproto.BinaryCopyTrailer()...)
+	}
+	a := srv.Connect()
+	a.Step(pgproto.Startup("user", "a"))
+	a.Step(pgproto.Query("copy"))
+	a.Step(pgproto.Cat(pgproto.CopyData(stream(0xAA, 3)), pgproto.CopyDone()))
+	if len(keep) != 3 {
+		res.Engine = fmt.Sprintf("the first COPY delivered %d rows", len(keep))
+		return res
+	}
+	c := a
+	if otherConn {
+		c = srv.Connect()
+		c.Step(pgproto.Startup("user", "b"))
+	}
+	for i := 0; i < later; i++ {
+		c.Step(pgproto.Query("copy"))
+		c.Step(pgproto.Cat(pgproto.CopyData(stream(byte(0x0F+i), 4)), pgproto.CopyDone()))
+		for n, k := range keep {
+			if now := fmt.Sprintf("%v", k.row); now != k.shown {
+				res.Fail("split-dependent", fmt.Sprintf("row %d of the first COPY was handed over as %s; after %d later COPYs (other connection: %v) the same values read %s", n, k.shown, i+1, otherConn, now))
+				return res
+			}
+		}
+	}
+	res.Trans = []string{"rows handed over|later copies|rows unchanged"}
+	return res
+}
+
 func splitAt(b []byte, cuts []int) [][]byte {
 	var out [][]byte
 	prev := 0
@@ -544,6 +627,32 @@ func c14Header(tier string, emit explore.Emit) {
 				}})
 		}
 	}
+	// header extension lengths at the 31 / 32-bit boundary (far more than the client ever sends): an error, or a
+	// reader that waits for the rest and meets the end of the stream - never a crash, never a fabricated row
+	for _, ext := range []uint32{0x7fffffff, 0x80000000, 0x80000013, 0xfffffffe, 0xffffffff, 0x00010000} {
+		for _, cuts := range [][]int{nil, {19}, {17}, {25}} {
+			ext, cuts := ext, cuts
+			emit(explore.Case{Family: "header-extension", Size: 3,
+				Desc: func() any {
+					return map[string]any{"declared_header_extension_bytes": ext, "bytes_behind_the_header": 60, "cuts": cuts}
+				},
+				Run: func() explore.Result {
+					var res explore.Result
+					res.Outcome = "split"
+					res.Key = fmt.Sprint("ext-declared", ext, cuts)
+					stream := pgproto.Cat(pgproto.CopySignature, pgproto.Be32(0), pgproto.Be32(ext), rows, pgproto.BinaryCopyTrailer())
+					o, eng := c14ServeWith([]string{"int4", "text"}, splitAt(stream, cuts), pgproto.CopyDone(), 0)
+					if eng != "" {
+						res.Engine = eng
+						return res
+					}
+					if len(o.rows) != 0 || o.final == "eof" {
+						res.Fail("split-dependent", fmt.Sprintf("a header declaring an extension area of %d bytes followed by %d bytes (split at %v): rows %v, reader ended with %q; expected an error and no row", ext, len(stream)-19, cuts, o.rows, o.final))
+					}
+					return res
+				}})
+		}
+	}
 	sizes := []int{65535, 65536, 70000}
 	if tier == "thorough" {
 		sizes = append(sizes, 65537, 131072, 200000, 1<<20)
@@ -720,6 +829,15 @@ func c14Enumerate(tier string, emit explore.Emit) {
 				return map[string]any{"earlier_copy_on_the_connection": bad, "then_a_valid_stream_cut_at": cuts}
 			},
 				Run: func() explore.Result { return c14RunAfterFailed(bad, cuts) }})
+		}
+	}
+	for _, later := range []int{1, 2, 9} {
+		for _, other := range []bool{false, true} {
+			later, other := later, other
+			emit(explore.Case{Family: "many-rows", Size: 300, Desc: func() any {
+				return map[string]any{"rows_of_the_first_copy_are_kept_by_the_handler": true, "later_copies": later, "on_another_connection": other}
+			},
+				Run: func() explore.Result { return c14RunRetainedRows(later, other) }})
 		}
 	}
 	// long streams: 300 rows with NULLs in changing positions, one message and 100-byte messages
